@@ -1711,6 +1711,7 @@ struct GModel {
 struct GNode {
   GModel m;
   std::string hist;
+  bool rejoin = false;  // some acquisition of the history was issued while the thread held another grant on the same lock
 };
 
 void
@@ -1718,7 +1719,8 @@ GalgSuccessors(const GNode &n, std::vector<GNode> &out)
 {
   static const char kK[3] = {'S', '6', 'X'};
   static const char kSl[2] = {'a', 'b'};
-  auto push = [&](const std::string &op, const GModel &m) { out.push_back(GNode{m, n.hist.empty() ? op : n.hist + " " + op}); };
+  bool rejoin_now = false;
+  auto push = [&](const std::string &op, const GModel &m) { out.push_back(GNode{m, n.hist.empty() ? op : n.hist + " " + op, n.rejoin || rejoin_now}); };
   for (int k = 0; k < 3; ++k) {
     for (int s = 0; s < 2; ++s) {
       // acquire (the slot is released first when it is occupied); lock 1 only into slot b
@@ -1728,7 +1730,10 @@ GalgSuccessors(const GNode &n, std::vector<GNode> &out)
         if (k == 1 && !n.m.MayEndSix(s)) continue;
         GModel m = n.m;
         m.sl[k][s] = static_cast<int8_t>(l);
+        // (a composite guard may own a shared grant on lock 0 once another thread is there: PrepareRead falls back)
+        rejoin_now = n.m.NS(l, k, s) > 0 || n.m.Has(1, l, k, s) || n.m.Has(2, l, k, s) || (l == 0 && (n.m.sl[3][0] != -2 || n.m.sl[3][1] != -2));
         push(std::string("L") + kK[k] + static_cast<char>('0' + l) + kSl[s], m);
+        rejoin_now = false;
       }
       if (n.m.sl[k][s] != -2 && (k != 1 || n.m.MayEndSix(s))) {
         GModel m = n.m;
@@ -1758,7 +1763,9 @@ GalgSuccessors(const GNode &n, std::vector<GNode> &out)
           GModel m = n.m;
           m.sl[2][d] = n.m.sl[1][s];
           m.sl[1][s] = -1;
+          rejoin_now = n.m.sl[3][0] != -2 || n.m.sl[3][1] != -2;
           push(std::string("UP") + kSl[s] + kSl[d], m);
+          rejoin_now = false;
         }
       }
       if (n.m.sl[2][s] != -2 && n.m.MayEndSix(d)) {
@@ -1837,6 +1844,7 @@ struct Args {
   bool iterate = true;
   int galg = 0;
   std::string galg_roots;  // comma-separated program prefixes (e.g. "v=1;"), "-" = the empty prefix
+  std::string galg_contend;  // comma-separated section names: every state representative of the search runs against each of them
 };
 
 vs::Config
@@ -1894,6 +1902,8 @@ main(int argc, char **argv)
       a.galg = atoi(val().c_str());
     } else if (k == "--galg-roots") {
       a.galg_roots = val();
+    } else if (k == "--galg-contend") {
+      a.galg_contend = val();
     } else {
       fprintf(stderr, "unknown argument %s\n", k.c_str());
       return 2;
@@ -1937,6 +1947,7 @@ main(int argc, char **argv)
     size_t total_states = 0, total_trans = 0, violating = 0;
     int depth_done = a.galg;
     bool cut = false;
+    std::vector<std::string> reps;  // one history per distinct (admissibility, implementation) state, for --galg-contend
     for (auto &root : roots) {
       std::set<std::string> seen;
       std::vector<GNode> frontier = {GNode{GModel{}, ""}};
@@ -2067,6 +2078,10 @@ main(int argc, char **argv)
           if (seen.insert(cand[i].m.Str() + kb).second) {
             next.push_back(cand[i]);
             ++total_states;
+            // a thread that asks for a lock on which it already holds a grant can wait for ever once another thread stands
+            // in between (MCSLock: a conflicting request queued behind its first grant; all classes: a SIX holder that
+            // upgrades and waits for this thread's shared grant) - a lock-order cycle of the client, not a defect
+            if (o.nv == 0 && !cand[i].rejoin) reps.push_back(root + cand[i].hist);
           }
         }
         // one aggregated row for the histories of this level that satisfied every monitor
@@ -2083,8 +2098,42 @@ main(int argc, char **argv)
         frontier.swap(next);
       }
     }
-    fprintf(out, "{\"summary\":true,\"lock\":\"%s\",\"programs\":%zu,\"wall_s\":%.3f,\"layout\":\"%s\",\"galg_depth_completed\":%d,\"galg_states\":%zu,\"galg_transitions\":%zu,\"cut\":%s}\n",
-            kLockName, total_trans, vs::Now() - t0, vs::JsonEscape(LAY.note).c_str(), depth_done, total_states, total_trans, cut ? "true" : "false");
+    size_t contended = 0;
+    if (!a.galg_contend.empty() && rc == 0) {
+      // guard algebra under contention: every state representative as thread 0 against one contender section on lock 0,
+      // all interleavings within the bound of this run
+      g_galg = false;
+      std::vector<std::string> secs;
+      {
+        std::stringstream cs(a.galg_contend);
+        std::string c;
+        while (std::getline(cs, c, ',')) secs.push_back(c);
+      }
+      std::vector<vs::Job> jobs;
+      for (auto &h : reps)
+        for (auto &c : secs) jobs.push_back(vs::Job{h + " | " + lockprog::Sec(c, '0'), ""});
+      const double left = a.budget - (vs::Now() - t0);
+      if (left <= 1) {
+        cut = true;
+      } else {
+        auto results = vs::RunJobs(jobs, a.nproc, a.job_budget + 60, left, [&](const vs::Job &j) {
+          PROG = Parse(j.name);
+          NT = static_cast<int>(PROG.th.size());
+          auto scn = MakeScenario();
+          auto cfg = MakeConfig(a);
+          auto r = vs::Explore(scn, cfg);
+          return vs::ResultToJson(r);
+        });
+        for (auto &r : results) {
+          fprintf(out, "{\"lock\":\"%s\",\"program\":\"%s\",\"status\":%d,\"err\":\"%s\",\"result\":%s}\n", kLockName,
+                  vs::JsonEscape(r.job.name).c_str(), r.status, vs::JsonEscape(r.err).c_str(), r.json.empty() ? "null" : r.json.c_str());
+          if (r.status == 2) rc = 2;
+          ++contended;
+        }
+      }
+    }
+    fprintf(out, "{\"summary\":true,\"lock\":\"%s\",\"programs\":%zu,\"wall_s\":%.3f,\"layout\":\"%s\",\"galg_depth_completed\":%d,\"galg_states\":%zu,\"galg_transitions\":%zu,\"galg_contended_programs\":%zu,\"cut\":%s}\n",
+            kLockName, total_trans + contended, vs::Now() - t0, vs::JsonEscape(LAY.note).c_str(), depth_done, total_states, total_trans, contended, cut ? "true" : "false");
     if (out != stdout) fclose(out);
     return rc;
   }
